@@ -102,13 +102,13 @@ func apply(ctx context.Context, c *sio.Crew, o op) (*sio.Result, error) {
 		switch o.Kind {
 		case "delete":
 			return nil, c.DeleteMachine(ctx, o.Mid)
+		case "replaceSpecNameOnly":
+			return nil, c.SetMachine(ctx, o.Mid, &crew.SpecSource{Name: o.Spec}, nil)
 		case "recreate":
 			if err := c.DeleteMachine(ctx, o.Mid); err != nil {
 				return nil, err
 			}
 			fallthrough
-		case "replaceSpecNameOnly":
-			return nil, c.SetMachine(ctx, o.Mid, &crew.SpecSource{Name: o.Spec}, nil)
 		case "create", "replaceSpec", "replaceState":
 			var src *crew.SpecSource
 			if o.Spec != "" {
@@ -284,6 +284,11 @@ func genHistory(r *rand.Rand, idx int) []op {
 			exists[mid] = false
 		case k == 6 && exists[mid]:
 			o = op{Kind: "recreate", Via: "direct", Mid: mid, Spec: newSpec()}
+			if r.Intn(3) == 0 {
+				// ... re-created without a spec: a machine that reacts to nothing
+				o.Spec = ""
+				o.State = map[string]interface{}{"node": "start", "bs": map[string]interface{}{"n": 7.0}}
+			}
 		case k == 7 && exists[mid] && idx%5 != 0:
 			// roll back: the most recent create of this id again, verbatim, while the machine exists
 			if prev, had := lastCreate[mid]; had {
@@ -330,6 +335,9 @@ func featureOf(h []op) []string {
 			fs = append(fs, "replace_spec")
 		case "recreate":
 			fs = append(fs, "delete_recreate_before_report")
+			if o.Spec == "" {
+				fs = append(fs, "recreated_without_a_spec_before_report")
+			}
 		case "delete":
 			deleted[o.Mid] = true
 			if o.Via == "direct" && i+1 < len(h) && h[i+1].Kind == "create" && h[i+1].Mid == o.Mid && h[i+1].Via == "direct" {
@@ -359,7 +367,7 @@ func featureOf(h []op) []string {
 func Run(cfg fw.Config, rec *fw.Rec) {
 	log.SetOutput(io.Discard)
 	rec.Rule = "histories of 4-13 crew operations over machine ids {m1,m2,m3}: create (with/without state), replace state, replace spec (and, in a fifth of the histories, a spec that does not compile), delete, delete+re-create before the next report, re-create across messages (also byte-identical to an earlier create), roll back a spec swap by repeating the original deployment verbatim, replace the spec by a source that only names one - through captain messages and through direct SetMachine / DeleteMachine calls - interleaved with routed and broadcast messages to counter / recorder machines whose reactions commute; after every message the shadow store folded from Result.Changed must equal the live crew (existence, node, bindings, spec name); at every message boundary a crew booted from the JSON-round-tripped shadow must give the same emissions and machine states for the rest of the history; end to end: the same kind of histories typed into a crew wired like sio/siostd (real Stdio coupling, state file rewritten after every message): the state file must equal the live crew, and a crew started from the state file written after a prefix must end like, and emit like, the uninterrupted one; and stopping and starting twice more without any message in between must leave the state file as it was; non-trivial = history with >= 2 crew operations other than messages; distinct by history"
-	rec.Required = []string{"shadow_equal_after_message", "restarts_compared", "replace_state", "replace_spec", "delete_recreate_before_report", "recreate_across_messages", "recreate_identical_to_an_earlier_create", "spec_swap_rolled_back_by_repeating_the_deployment", "spec_replaced_by_a_name_only_source", "stdio_state_file_equals_crew", "stdio_restarts_compared", "stdio_idle_lifetimes_keep_the_state"}
+	rec.Required = []string{"shadow_equal_after_message", "restarts_compared", "replace_state", "replace_spec", "delete_recreate_before_report", "recreate_across_messages", "recreate_identical_to_an_earlier_create", "spec_swap_rolled_back_by_repeating_the_deployment", "spec_replaced_by_a_name_only_source", "recreated_without_a_spec_before_report", "stdio_state_file_equals_crew", "stdio_restarts_compared", "stdio_idle_lifetimes_keep_the_state"}
 	rec.Assume = []string{"reactions of different machines to one message commute (machines only touch their own bindings and emit to nobody)", "a missing stored state is the default start/{} the boot path supplies", "service machines captain and timers are not compared"}
 	n := cfg.Pick(1200, 20000)
 	fw.Parallel(cfg.Workers, n, func(w, i int) {
